@@ -97,15 +97,19 @@ class MultiEvent(threading.Event):
 
     def deadline(self):
         deadline = 0
-        for event in self.events:
-            deadline = max(event.deadline, deadline)
+        with self._lock:  # the set must not change while we iterate over it
+            for event in self.events:
+                deadline = max(event.deadline, deadline)
         return None if deadline == ETERNITY else deadline
 
     def wait(self, timeout=None):
         """wait for all events being set or timed out"""
-        if not self.events:  # do not wait if events are empty
-            return True
-        deadline = self.deadline()
+        with self._lock:
+            # look at the events under the lock: a trigger firing right now must neither
+            # break the iteration nor make us give up with a deadline of "no events" (0)
+            if not self.events:  # do not wait if events are empty
+                return True
+            deadline = self.deadline()
         if deadline is not None:
             deadline -= time.monotonic()
             timeout = deadline if timeout is None else min(deadline, timeout)
@@ -114,7 +118,8 @@ class MultiEvent(threading.Event):
         return super().wait(timeout)
 
     def waiting_for(self):
-        return set(event.name for event in self.events)
+        with self._lock:
+            return set(event.name for event in self.events)
 
     def get_trigger(self, timeout=None, name=None):
         """create a new single event and return its set method
